@@ -1,6 +1,7 @@
 package props
 
 import (
+	"sort"
 	"errors"
 	"fmt"
 	"strconv"
@@ -549,13 +550,55 @@ func (s *c03) captureStale(o crdt.Op) {
 	default:
 		return
 	}
+	how := "deleted"
+	if o.Kind == "put" || o.Kind == "upd" {
+		how = "replaced"
+	}
 	if d := crdt.Navigate(s.rep.DT.(orda.Document), childPath); d != nil && len(s.stale) < 8 {
-		how := "deleted"
-		if o.Kind == "put" || o.Kind == "upd" {
-			how = "replaced"
-		}
 		s.stale = append(s.stale, staleHandle{d, kind, how})
 	}
+	// handles of containers nested BELOW the child that is about to go: they are not
+	// tombstoned themselves, only detached together with their ancestor
+	var walk func(n interface{}, path []interface{}, depth int)
+	walk = func(n interface{}, path []interface{}, depth int) {
+		visit := func(ch interface{}, step interface{}) {
+			var k orda.TypeOfJSON
+			switch ch.(type) {
+			case map[string]interface{}:
+				k = orda.TypeJSONObject
+			case []interface{}:
+				k = orda.TypeJSONArray
+			default:
+				return
+			}
+			cp := append(append([]interface{}{}, path...), step)
+			if len(s.stale) < 16 {
+				if d := crdt.Navigate(s.rep.DT.(orda.Document), cp); d != nil {
+					s.stale = append(s.stale, staleHandle{d, k, "nested below a " + how})
+					s.c.Count("stale_handles_below_deleted_ancestor", 1)
+				}
+			}
+			if depth < 4 {
+				walk(ch, cp, depth+1)
+			}
+		}
+		switch x := n.(type) {
+		case map[string]interface{}:
+			ks := make([]string, 0, len(x))
+			for k := range x {
+				ks = append(ks, k)
+			}
+			sort.Strings(ks)
+			for _, k := range ks {
+				visit(x[k], k)
+			}
+		case []interface{}:
+			for i, e := range x {
+				visit(e, i)
+			}
+		}
+	}
+	walk(node, childPath, 0)
 }
 
 func (s *c03) transaction() (string, string) {
